@@ -154,7 +154,7 @@ def gaussian_syn_likelihood_ghurye_olkin(ssx, ssy):
     """
     n, d = ssx.shape
     mu = np.mean(ssx, 0)
-    Sigma = np.cov(np.transpose(ssx))
+    Sigma = np.atleast_2d(np.cov(np.transpose(ssx)))
     ssy = ssy.reshape((-1, 1))
     mu = mu.reshape((-1, 1))
 
